@@ -778,7 +778,8 @@ def enum_family(fam):
 
 
 def families(tier):
-    """name -> (templates, stride).  stride > 1 (quick tier only) keeps every stride-th model of the family."""
+    """name -> (templates, stride, all_orders_max).  stride > 1 keeps every stride-th model of the family; every
+    declaration order is tried for models with <= all_orders_max components, a fixed + seeded selection otherwise."""
     q = tier == "quick"
     k, x, y = ("P", "k", 2.0), ("V", "x", 5.0, None), ("V", "y", 6.0, None)
     xa = ("V", "x", 5.0, [1])
@@ -786,41 +787,37 @@ def families(tier):
         # every arity-1 pattern, assignment on the variable and/or a parameter, one derived, one reaction with
         # numeric / named / computed coefficient
         "E0": ([k, xa, ("PA", "p", [1], True), ("D", "d1", [1], False),
-                ("R", "v1", [1], "x", ["num", "name", 1], False)], 1),
+                ("R", "v1", [1], "x", ["num", "name", 1], False)], 1, 4 if q else 5),
         # chains through two derived quantities and an assignment-defined parameter (arity 0/1/2 on one derived)
         "E1": ([k, x, ("PA", "p", [1], False), ("D", "d1", [0, 1, 2], False), ("D", "d2", [1], False),
-                ("R", "v1", [1], "x", ["num", 1], True)], 9 if q else 1),
+                ("R", "v1", [1], "x", ["num", 1], True)], 9 if q else 1, 4),
         # two-output surrogate (one flux, one auxiliary output) feeding derived quantities and assignments
         "E2": ([k, xa, ("PA", "p", [1], True), ("D", "d1", [1], False),
-                ("S", "s", [1], ("so1", "so2"), ("so1",), "x", ["num", 1], False)], 2 if q else 1),
+                ("S", "s", [1], ("so1", "so2"), ("so1",), "x", ["num", 1], False)], 2 if q else 1, 4 if q else 5),
         # two variables, assignments chained through each other and through a rate of arity 1 or 2
         "E3": ([k, xa, ("V", "y", 6.0, [1]), ("PA", "p", [1], True),
-                ("R", "v1", [1, 2], "y", ["num"], False)], 1),
+                ("R", "v1", [1, 2], "y", ["num"], False)], 1, 4 if q else 5),
     }
     if not q:
         # three derived quantities in a chain, two variables
         fams["E4"] = ([k, xa, y, ("D", "d1", [1], False), ("D", "d2", [1], False), ("D", "d3", [1], False),
-                       ("R", "v1", [1], "x", ["num", 1], False)], 1)
+                       ("R", "v1", [1], "x", ["num", 1], False)], 2, 4)
         # binary patterns everywhere
-        fams["E5"] = ([k, ("V", "x", 5.0, [1, 2]), ("D", "d1", [2], False), ("R", "v1", [1], "x", [2], False)], 1)
+        fams["E5"] = ([k, ("V", "x", 5.0, [1, 2]), ("D", "d1", [2], False), ("R", "v1", [1], "x", [2], False)], 1, 4)
         # surrogate of arity 1/2 with numeric / named / computed coefficient and two derived quantities
         fams["E6"] = ([k, x, ("D", "d1", [1], False), ("D", "d2", [1], False),
-                       ("S", "s", [1, 2], ("so1", "so2"), ("so1",), "x", ["num", "name", 1], False)], 1)
+                       ("S", "s", [1, 2], ("so1", "so2"), ("so1",), "x", ["num", "name", 1], False)], 1, 4)
     return fams
 
 
-ALL_ORDERS_MAX = {"quick": 4, "thorough": 5}
-
-
-def orders_for(decl, idx, tier, rng_seed):
+def orders_for(decl, idx, tier, rng_seed, all_max):
     n = len(decl)
-    all_max = ALL_ORDERS_MAX[tier]
     ident = list(range(n))
     if n <= all_max:
         return [list(p) for p in itertools.permutations(ident)], True
     rng = random.Random(rng_seed * 1000003 + idx)
     out = [ident, ident[::-1]]
-    for _ in range(2 if tier == "quick" else 6):
+    for _ in range(2 if tier == "quick" else 4):
         p = ident[:]
         rng.shuffle(p)
         if p not in out:
@@ -918,7 +915,7 @@ def _work(job):
 
     mi = 0
     kept = 0
-    for fam, (tpl, stride) in families(tier).items():
+    for fam, (tpl, stride, all_max) in families(tier).items():
         for decl in enum_family(tpl):
             mi += 1
             if mi % stride:
@@ -927,7 +924,7 @@ def _work(job):
             if kept % nshards != shard:
                 continue
             stats["models"] += 1
-            perms, exhaustive = orders_for(decl, mi, tier, sd)
+            perms, exhaustive = orders_for(decl, mi, tier, sd, all_max)
             stats["all_orders_models"] += exhaustive
             for oi, p in enumerate(perms):
                 d = [decl[i] for i in p]
@@ -961,7 +958,7 @@ def _replay(decl):
 def run(ctx: Ctx) -> None:
     sd = seed()
     nshards = max(1, min(16, os.cpu_count() or 1))
-    n_random = 16000 if ctx.tier == "quick" else 400000
+    n_random = 16000 if ctx.tier == "quick" else 300000
     jobs = [(ctx.tier, s, nshards, sd, n_random) for s in range(nshards)]
     with ProcessPoolExecutor(max_workers=nshards) as ex:
         results = list(ex.map(_work, jobs))
@@ -1009,7 +1006,7 @@ def run(ctx: Ctx) -> None:
         bound=(f"families {sorted(k for k in byfam if k != 'R')}: every argument pattern (arity as stated per family, names incl. time) of all acyclic "
                f"models with 1-2 plain parameters, <=1 assignment-defined parameter, 1-2 variables (plain or assignment-initialised), "
                f"<=3 derived, <=1 reaction (numeric / named / computed coefficient), optional 2-output MockSurrogate; all declaration orders "
-               f"for models with <= {ALL_ORDERS_MAX[ctx.tier]} components ({all_orders} models), identity+reversed+seeded orders otherwise; "
+               f"for {all_orders} models (<= 4 components, in the thorough tier <= 5 in E0/E2/E3), identity+reversed+seeded orders otherwise; "
                f"plus {len(rnd)} seeded random models (family R) from the full bound <=2 plain + <=2 assigned parameters, <=2 variables, "
                f"<=3 derived, <=2 reactions, optional surrogate, arity 0-2, random order; each x default state + up to 3 supplied (state, time) "
                f"pairs x re-declaration of every plain value after the first evaluation"),
